@@ -13,7 +13,7 @@ for l in rows:
         short = short[:137] + "..."
     if silent != "-":
         caught += " (silent: %s)" % silent
-    if hist.startswith("missed") or "only at first" in hist or "tie only at first" in hist or "only statistically" in hist or "missed by" in hist:
+    if any(w in hist for w in ("missed at first", "missed by", "missed before", "missed in its first", "only at first", "only statistically", "reported at first only", "stays silent")):
         n_first_miss += 1
     out.append("| %s | %s | %s | %s |" % (sid, short, caught, hist))
 sec = '''
@@ -36,8 +36,8 @@ the neighbours listed in the script), reverts with `git checkout -- .` and rebui
 `seeded/INDEX.md`; nothing of this is ever committed to /repo.
 
 All %d changes are caught by the quick tier as it stands (last sweep after the final
-strengthening).  %d of them were NOT caught, or only as a broken tie without a failing input, or
-only statistically, by the checks as they were when the change was first run; every miss was a gap
+strengthening).  %d of them were NOT caught - or only as a broken tie without a failing input, only
+statistically, or only by the check of a neighbouring property - by the checks as they were when the change was first run; every miss was a gap
 in a generator or an absent oracle/tie, never in a theorem, and was closed by extending the check
 (column "history").  The miss rate fell from round to round (15 of 38, 8 of 38, 5 of 30; the 17 new ideas of the fourth round had 6 misses, the 5 of the fifth round 2).  The
 larger extensions that came out of this: the content tie of C09 (installed scales = bit-exact
